@@ -28,6 +28,8 @@ CHECKS = {
          "seeded search over histories (ok/error/timeout/exit) with stale, unknown, empty and duplicate submissions, and over zombie requests of a dying runtime held at 10 lock sites of validator, handlers, state machine and interop server while reset, reservation, dispatch and response of later invocations proceed; decides accept-iff-in-flight-once, bodies delivered to callers, and that the legitimate runtime is never refused; sampled; two zombie-request defects are recorded as known findings"),
  "C07": ("exploration", "3 C07", "full-stack deterministic swarm simulation: random (mis)behaving party scripts over several faulty generations, lock-grant reordering and inventory-drawn holds; liveness/body/recovery oracle",
          "seeded swarm over scripts drawn from the full Runtime/Extensions API alphabet including misuse, stalls, exits, crashes while parked and truncated bodies, over 2-5 faulty generations followed by healthy ones, with 25-75% lock-grant reordering and goroutine holds at sites drawn from the tree's own lock-site inventory; decides that the emulator neither crashes nor wedges, that every invocation is answered within the bound with an admissible body, and that service recovers; sampled"),
+ "C08": ("exploration", "3 C08", "differential deterministic simulation: suffix after (random prefix + reset) versus the same suffix after a trivial prefix, two bubbles per run, normalised trace equality",
+         "seeded search over prefixes (healthy, error, crash, timeout, init error, extension crash, oversize, explicit reset) with late exit notifications up to beyond the exit grace, kill latency, lock-grant reordering and a goroutine held at clearing/cancelling/exit-handling lock sites, followed by a suffix scenario; the oracle is equality of the complete normalised suffix trace with the one obtained after a trivial prefix on a second fresh instance; sampled; the zombie-API-request family is recorded as a known finding"),
 }
 
 NA = [
